@@ -70,6 +70,10 @@ def state_report(kind: int, dv: int, sv: int, mv: int, val: str, flag: bool) -> 
                     st2.mk_metric_value()
                     st2.MetricValue.Value = val + 'z'
                     expect['m2'] = ('mds1', 1, val + 'z')
+                    st3 = tr.get_state('m1')       # mds0 again: the changed states of one MDS are NOT adjacent in the transaction
+                    st3.mk_metric_value()
+                    st3.MetricValue.Value = val + 'y'
+                    expect['m1'] = ('mds0', 1, val + 'y')
             frag = 'EpisodicMetricReport'
             probe = lambda s: s.MetricValue.Value  # noqa: E731
         elif kind == 2:
